@@ -624,6 +624,16 @@ impl StreamBuilder {
         ));
         self
     }
+    /// Append arbitrary bytes at the current *bit* position (after the blocks written so far) and
+    /// return the raw byte string together with the plaintext of the valid part. No trailer.
+    pub fn finish_with_raw_tail(mut self, tail: &[u8]) -> (Vec<u8>, Vec<u8>) {
+        for &b in tail {
+            self.w.put_byte(b);
+        }
+        self.w.align();
+        (self.w.bytes, self.plain)
+    }
+
     pub fn finish(mut self) -> GenStream {
         let deflate_bits = self.w.nbits - if self.zlib { 16 } else { 0 };
         self.w.align();
